@@ -976,6 +976,55 @@ func ruleWin5(c *Ctx, r *Reporter) {
 		}
 	})
 	if cmp == nil {
+		// the library form: slices.MaxFunc(arr, Compare) when reverse, slices.MinFunc(arr, Compare) otherwise (both return
+		// the first extreme element and compare (element, best) in that order)
+		nLib, badLib := 0, ""
+		allInstrs(fn, func(in ssa.Instruction) {
+			call, ok := in.(*ssa.Call)
+			if !ok {
+				return
+			}
+			f := calleeObj(&call.Call)
+			if f == nil || f.Pkg() == nil || f.Pkg().Path() != "slices" || (f.Name() != "MaxFunc" && f.Name() != "MinFunc") || len(call.Call.Args) != 2 {
+				return
+			}
+			nLib++
+			cf, _ := call.Call.Args[1].(*ssa.Function)
+			if cf == nil {
+				if ct, ok := call.Call.Args[1].(*ssa.ChangeType); ok {
+					cf, _ = ct.X.(*ssa.Function)
+				}
+			}
+			if cf == nil || cf.Object() != types.Object(cmpF) {
+				badLib = "the extreme element is not chosen by bsonkit.Compare"
+				return
+			}
+			// direction: MaxFunc only under reverse, MinFunc only under !reverse
+			wantRev := f.Name() == "MaxFunc"
+			decided := false
+			for b := call.Block(); b != nil; b = b.Idom() {
+				id := b.Idom()
+				if id == nil || len(id.Instrs) == 0 {
+					continue
+				}
+				iff, ok := id.Instrs[len(id.Instrs)-1].(*ssa.If)
+				if !ok || !isReverse(iff.Cond) {
+					continue
+				}
+				if id.Succs[0] == b || id.Succs[0].Dominates(b) {
+					decided = wantRev
+				} else if id.Succs[1] == b || id.Succs[1].Dominates(b) {
+					decided = !wantRev
+				}
+			}
+			if !decided && badLib == "" {
+				badLib = "slices." + f.Name() + " is not reached exactly for the matching direction"
+			}
+		})
+		if nLib == 2 {
+			r.check(badLib == "", "sortKey:update table", c.pos(fn.Pos()), "slices.MaxFunc under reverse, slices.MinFunc otherwise, both by bsonkit.Compare", badLib+": arrays are not ranked by their smallest element ascending / largest descending")
+			return
+		}
 		r.bad("sortKey:comparison", c.pos(fn.Pos()), "no bsonkit.Compare call")
 		return
 	}
